@@ -34,6 +34,8 @@ def run(chk, F):
     chk.guard("ladder-vs-manual", "parser", lambda: ladder(chk, F))
     chk.guard("operator-routing", "wrappers", lambda: routing(chk, F))
     chk.guard("literal-digits", "lexer", lambda: digits(chk, F))
+    import c03
+    chk.guard("target-consumed", "parse_query", lambda: c03.target_consumed(chk, F))
     import castaudit
     chk.guard("no-silent-wrap", "cast audit", lambda: castaudit.run(chk, F, "C01"))
     chk.floor("no-silent-wrap", 15, "(narrowing casts / machine shifts in the arithmetic, lexer and evaluator files)")
